@@ -4,8 +4,8 @@ Faithful model of the Earley recogniser of pyformlang.fcfg.FCFG (`_get_final_sta
 feature structures (`Pfl/Model/FeatureDag.lean`): one global store of objects, `copy` with its
 memo, `subsumes`, destructive `unify` on copies.  Chart columns are stacks (`pop()` takes the
 last element), `processed[i]` is an insertion-ordered dict keyed by `(production, positions)`.
-Faithful for grammars without epsilon productions (with them the library mutates a dict while
-iterating over it; here every `generator(i)` is a snapshot).  Core Lean only.
+Every `generator(i)` the library iterates while adding states is a snapshot (`list(...)`), as here.
+Core Lean only.
 -/
 import Pfl.Model.FeatureDag
 import Pfl.Model.CFG
@@ -120,41 +120,51 @@ def pushIfNew (G : Grammar) (T : Tables) (i : Nat) (s : EState) : Tables :=
   let (T', added) := procAdd G T i s
   if added then { T' with chart := T'.chart.set i (colGet T'.chart i ++ [s]) } else T'
 
-/-- `__predictor` -/
+/-- `_advance(next_state, state)`: move the waiting state `nx` over the variable derived by the
+complete state `s` (copies of both feature structures, unification of the slot with the head) -/
+def advance (G : Grammar) (T : Tables) (nx s : EState) : Tables :=
+  let (st1, cl) := copy T.store s.fs
+  match byPath st1 cl ["head"] with
+  | none => { T with store := st1 }
+  | some left =>
+    let (st2, cr) := copy st1 nx.fs
+    match byPath st2 cr [toString nx.dot] with
+    | none => { T with store := st2 }
+    | some considered =>
+      match unify (st2.length + 2) st2 considered left with
+      | .ok st3 =>
+        pushIfNew G { T with store := st3 } s.e { prod := nx.prod, b := nx.b, e := s.e, dot := nx.dot + 1, fs := cr }
+      | _ => { T with store := st2 }
+
+/-- `__predictor` (after the repair): predict every production of the expected variable, then move
+the waiting state over the variable right away for every item of that variable already completed
+on the empty word at this position -/
 def predictor (G : Grammar) (T : Tables) (s : EState) : Tables :=
   match nextSym G s with
   | some (.var v) =>
-    (G.prods.zip (List.range G.prods.length)).foldl (fun T pk =>
+    let T1 := (G.prods.zip (List.range G.prods.length)).foldl (fun T pk =>
       if pk.1.head = v then pushIfNew G T s.e { prod := pk.2, b := s.e, e := s.e, dot := 0, fs := pk.1.feats }
       else T) T
+    let snapshot : List EState := (colGet T1.processed s.e).flatMap (·.2)
+    snapshot.foldl (fun T c =>
+      if !(incomplete G c) ∧ c.b = s.e ∧ (prodOf G c.prod).head = v then advance G T s c else T) T1
   | _ => T
 
 /-- `_scanner` -/
 def scanner (G : Grammar) (T : Tables) (s : EState) : Tables :=
   pushIfNew G T (s.e + 1) { s with e := s.e + 1, dot := s.dot + 1 }
 
-/-- `_completer` -/
+/-- `_completer`: the states waiting at the beginning of the completed item (a snapshot:
+`list(processed.generator(begin_idx))`) -/
 def completer (G : Grammar) (T : Tables) (s : EState) : Tables :=
   let head := (prodOf G s.prod).head
   let snapshot : List EState := (colGet T.processed s.b).flatMap (·.2)
   snapshot.foldl (fun T nx =>
-    if incomplete G nx ∧ nextSym G nx = some (.var head) then
-      let (st1, cl) := copy T.store s.fs
-      match byPath st1 cl ["head"] with
-      | none => { T with store := st1 }
-      | some left =>
-        let (st2, cr) := copy st1 nx.fs
-        match byPath st2 cr [toString nx.dot] with
-        | none => { T with store := st2 }
-        | some considered =>
-          match unify (st2.length + 2) st2 considered left with
-          | .ok st3 =>
-            pushIfNew G { T with store := st3 } s.e { prod := nx.prod, b := nx.b, e := s.e, dot := nx.dot + 1, fs := cr }
-          | _ => { T with store := st2 }
-    else T) T
+    if incomplete G nx ∧ nextSym G nx = some (.var head) then advance G T nx s else T) T
 
-/-- the `while chart[i]` loop of column `i` (`last` = the final column: completions only) -/
-def columnLoop (G : Grammar) (word : List String) (i : Nat) (last : Bool) : Nat → Tables → Option Tables
+/-- the `while chart[i]` loop of column `i` (after the repair every column, the last one included,
+is processed alike; there is nothing to scan in the last column) -/
+def columnLoop (G : Grammar) (word : List String) (i : Nat) : Nat → Tables → Option Tables
   | 0, _ => none
   | f+1, T =>
     match (colGet T.chart i).getLast? with
@@ -162,14 +172,13 @@ def columnLoop (G : Grammar) (word : List String) (i : Nat) (last : Bool) : Nat 
     | some s =>
       let T0 := { T with chart := T.chart.set i (colGet T.chart i).dropLast }
       let T1 :=
-        if last then (if incomplete G s then T0 else completer G T0 s)
-        else if incomplete G s then
+        if incomplete G s then
           match nextSym G s with
           | some (.var _) => predictor G T0 s
           | some (.ter t) => if word[i]? = some t then scanner G T0 s else T0
           | none => T0
         else completer G T0 s
-      columnLoop G word i last f T1
+      columnLoop G word i f T1
 
 /-- `_get_final_state(word) is not None` = `contains(word)`; `none` = out of fuel -/
 def contains (G : Grammar) (st0 : Store) (word : List String) (fuel : Nat) : Option Bool :=
@@ -180,17 +189,14 @@ def contains (G : Grammar) (st0 : Store) (word : List String) (fuel : Nat) : Opt
   let rec cols : List Nat → Tables → Option Tables
     | [], T => some T
     | i :: rest, T =>
-      match columnLoop G word i false fuel T with
+      match columnLoop G word i fuel T with
       | none => none
       | some T' => cols rest T'
-  match cols (List.range n) T1 with
+  match cols (List.range (n + 1)) T1 with
   | none => none
-  | some T2 =>
-    match columnLoop G word n true fuel T2 with
-    | none => none
-    | some T3 =>
-      some (((colGet T3.processed n).flatMap (·.2)).any fun s =>
-        s.b = 0 ∧ !(incomplete G s) ∧ (prodOf G s.prod).head = G.start)
+  | some T3 =>
+    some (((colGet T3.processed n).flatMap (·.2)).any fun s =>
+      s.b = 0 ∧ !(incomplete G s) ∧ (prodOf G s.prod).head = G.start)
 
 end Earley
 end Pfl
